@@ -1070,6 +1070,30 @@ def r5_reservations(program, rep):
                 ((("items", _Pm(a)), ()),))
         got = [plain(F.term(r.value)) for r in returns_of(f)
                if r.value is not None]
+        if len(got) == 1 and got[0][0] != "dictcomp":
+            # the same dictionary filled by a loop over the first operand's
+            # items: one store per pass, nothing else done to it
+            raw = [F.term(r.value) for r in returns_of(f)
+                   if r.value is not None][0]
+            sts = [x for x in stores(F) if x[2] == raw]
+            lp = sts[0][1]._parent if len(sts) == 1 else None
+            other = [x for x in method_calls(F, ["update", "pop", "clear",
+                                                 "setdefault", "popitem"])
+                     if x[2] == raw]
+            if raw[0] == "new" and len(sts) == 1 and not other and \
+                    isinstance(lp, ast.For) and not lp.orelse and \
+                    plain(F.term(lp.iter, F.cfg.loop_head[id(lp)])) == \
+                    ("items", _Pm(a)) and not any(
+                        isinstance(x, (ast.Break, ast.Continue, ast.Return))
+                        for x in ast.walk(lp)):
+                got = [("dictcomp", ("pair", plain(sts[0][3]),
+                                     plain(sts[0][4])),
+                        ((("items", _Pm(a)), ()),))]
+            else:
+                raise AnalysisError("%s: the result is neither a dictionary "
+                                    "comprehension nor one dictionary filled "
+                                    "by a loop over the first operand's "
+                                    "items; that form is not analysed" % nm)
         rep.check(got == [want], "C02-R5", qual(f), "%s keeps the first "
                   "operand's keys and treats missing second-operand entries "
                   "as 0" % nm, construct=nm, node=f)
